@@ -131,7 +131,7 @@ void h_close_lemma(void){    /* the reference is symmetric: a fact about IEEE-75
 /* double operands: nmtools rounds |a-b| to float before comparing with eps (constexpr_fabs<Float=float>) */
 static int closed_as_float(double a, double b, double eps){ double d = a - b; double m = d < 0 ? -d : d; return (double)(float)m < eps; }
 void h_close_f64(void){
-  double c = in_f64(), t = in_f64(), e2 = in_f64(); u64 s = in_u64(0, 2); double d = s == 1 ? c : s == 2 ? c + t : t;
+  double c = in_f64(), t = in_f64(), e2 = in_f64(); u64 s = in_u64(0, 1); double d = s ? c : t;
   double d0 = c - d, m0 = d0 < 0 ? -d0 : d0, d1 = d - c, m1 = d1 < 0 ? -d1 : d1;      /* |c-d| and |d-c| */
 #ifdef KF_C18_CLOSE_DOUBLE_ROUNDS_TO_FLOAT
   ASSUME((((double)(float)m0 < e2) == (m0 < e2)) && (((double)(float)m1 < e2) == (m1 < e2)));   /* region: rounding the difference to float changes the verdict */
@@ -140,7 +140,7 @@ void h_close_f64(void){
   REACHED();
 }
 void h_close_f32_f64(void){
-  float a = in_f32(); double t = in_f64(), e2 = in_f64(); u64 s = in_u64(0, 2); double d = s == 1 ? (double)a : s == 2 ? (double)a + t : t;
+  float a = in_f32(); double t = in_f64(), e2 = in_f64(); u64 s = in_u64(0, 1); double d = s ? (double)a : t;
   double d0 = (double)a - d, m0 = d0 < 0 ? -d0 : d0, d1 = d - (double)a, m1 = d1 < 0 ? -d1 : d1;
 #ifdef KF_C18_CLOSE_DOUBLE_ROUNDS_TO_FLOAT
   ASSUME((((double)(float)m0 < e2) == (m0 < e2)) && (((double)(float)m1 < e2) == (m1 < e2)));
